@@ -3,6 +3,7 @@ import Tw.Model.Conn7
 import Tw.Proofs.Conn6
 import Tw.Proofs.Conn7
 import Tw.Model.OnlineNet
+import Tw.Proofs.ConnProgress
 
 /-!
 # C02 — the connection makes progress: every call returns, the deadline is finite
@@ -21,14 +22,14 @@ the repair).
 0.7's `PendingConnect` it is false (defect D23, open): the full statement is `C02_deadline_full`,
 the theorem is `conn7_deadline_finite_partial`, the counterexample `conn7_deadline_witness`.
 
-(c) **Progress under a fair suffix** is stated in full as `C02_progress_full` over the two-endpoint
-system of `Tw/Model/OnlineNet.lean` (`fairRound`: both sides resend and flush, every datagram of the
-round is delivered once, in order).  Proved of it: `progress_in_order_delivery_partial` — a packet
-that carries exactly the receiver's next `m` chunks in order (as a resend builds it) advances the
-receiver by exactly `m` and hands over exactly those payloads, with no window assumption — and
-`fair_round_demo` (a lossy prefix followed by two fair rounds reaches quiescence; computed).  The
-ranking-function argument (handshake phase, undelivered, unacknowledged, queued) is not proved; the
-`C02/not-quiescent` oracle checks quiescence after a fair suffix on the implementation.
+(c) **Progress under a fair suffix.**  Online phase: `C02_progress` — over the two-endpoint system of
+`Tw/Model/OnlineNet.lean` (`fairRound`: both sides resend and flush, every datagram of the round is
+delivered once, in order), from every state reachable under an arbitrary admissible prefix at most
+four fair rounds reach `quiescent` (everything handed over, queues and packets empty, no resend
+request pending); the bound is constant.  Handshake: `handshake6_fair` (two deliveries) and
+`handshake7_fair` (four deliveries) make the connector `Online` and `Ready`.  Not composed into one
+statement over two full connections with clocks (ticks at the reported deadline): the
+`C02/not-quiescent` oracle checks exactly that on the implementation.
 -/
 namespace Tw.Props.C02
 open Tw.Conn Tw.Time
@@ -140,12 +141,31 @@ theorem conn7_deadline_witness : ¬ C02_deadline_full := by
 
 /-! ## (c) progress under a fair suffix -/
 
-/-- the full progress claim for the online phase: from every reachable state, a bounded number of fair
-rounds (the bound may depend on the amount queued) reaches quiescence -/
+/-- the full progress claim for the online phase: from every state reachable under an arbitrary
+admissible prefix (loss, duplication, reordering, delay, application calls), at most **four** fair
+rounds reach quiescence — everything submitted handed over, both resend queues and packets empty, no
+resend request pending.  The bound is a constant: round 1 hands everything over, round 2 carries the
+acks that empty the queues, round 3 flushes what the duplicates of round 2 left queued, round 4
+clears the last resend request.  (The handshake rounds are `handshake6_fair` / `handshake7_fair`.) -/
 def C02_progress_full : Prop :=
   ∀ (cfg : Cfg), cfg.Ok → ∀ (ms : List Tw.OnlineNet.Move) (s : Tw.OnlineNet.Sys), Tw.OnlineNet.run cfg .init ms = some s →
-    ∃ k s', k ≤ 3 + 2 * ((s.ep true).resendQueue.length + (s.ep false).resendQueue.length) ∧
-      Tw.OnlineNet.fairRounds cfg k s = some s' ∧ Tw.OnlineNet.quiescent s'
+    ∃ k s', k ≤ 4 ∧ Tw.OnlineNet.fairRounds cfg k s = some s' ∧ Tw.OnlineNet.quiescent s'
+
+/-- **progress under a fair suffix (online phase)** — proof: `Tw/Proofs/ConnProgress.lean` (builder
+`connc01`), on top of the component lemmas of `Tw/Proofs/ConnProgressCore.lean` -/
+theorem C02_progress : C02_progress_full :=
+  fun _ hc ms s hr => Tw.OnlineNet.progress hc ms s hr
+
+/-- … for the 0.6 and the 0.7 configuration -/
+theorem C02_progress6 (ms : List Tw.OnlineNet.Move) (s : Tw.OnlineNet.Sys)
+    (hr : Tw.OnlineNet.run Tw.Conn6.cfg .init ms = some s) :
+    ∃ k s', k ≤ 4 ∧ Tw.OnlineNet.fairRounds Tw.Conn6.cfg k s = some s' ∧ Tw.OnlineNet.quiescent s' :=
+  C02_progress _ Tw.Conn6.cfg_ok ms s hr
+
+theorem C02_progress7 (ms : List Tw.OnlineNet.Move) (s : Tw.OnlineNet.Sys)
+    (hr : Tw.OnlineNet.run Tw.Conn7.cfg .init ms = some s) :
+    ∃ k s', k ≤ 4 ∧ Tw.OnlineNet.fairRounds Tw.Conn7.cfg k s = some s' ∧ Tw.OnlineNet.quiescent s' :=
+  C02_progress _ Tw.Conn7.cfg_ok ms s hr
 
 /-- the chunks of a packet are exactly the sender's chunks `d, d+1, …, d+m-1` in order (non-vital
 chunks may be interleaved) — the shape `resend` gives a packet -/
